@@ -993,3 +993,112 @@ def ops2(m, run, fname, helper, sign):
                         why = 'the row helper %s is never called: the request is ignored' % helper
             run.ob('OPS2.operation-on-abstract-net', key, why is None,
                    'sizes, flat layout of every cell and all knot vectors are as requested' if why is None else why, 'geomdl/operations.py in operations.%s' % fname)
+
+
+# ====================================================================================== C13: control point managers (pure integer code)
+def mg2(m, run):
+    """MG2: <K>Manager(sizes).find_index(u[, v[, w]]) is the canonical flat index v + Sv*(u + Su*w) - pure integer code, interpreted
+    exactly for every index tuple of a box of pairwise different sizes (whichever class in the hierarchy implements it)"""
+    import itertools as _it
+    for cname, boxes in (('CurveManager', [(4,), (7,)]), ('SurfaceManager', [(3, 4), (5, 2)]), ('VolumeManager', [(2, 3, 4), (4, 2, 3), (3, 5, 2)])):
+        fi = m.lookup(('control_points', cname), 'find_index', 'methods')
+        if fi is None:
+            raise AnalysisError('control_points.%s.find_index not found in the class hierarchy' % cname)
+        bad = None
+        n = 0
+        for sizes in boxes:
+            obj = Bag(('control_points', cname), _size=list(sizes), _points=[], _pt_data={}, _cache={}, _attachment={}, _num_ctrlpts=0)
+            for coord in _it.product(*[range(s_) for s_ in sizes]):
+                sk = SK(m, dict(STD_ABSTRACTED))
+                try:
+                    got = sk.call(fi, [obj] + list(coord), {})
+                except Violation as v:
+                    got = 'error: %s' % v.msg
+                except Unsupported as ex:
+                    raise AnalysisError('control_points.%s.find_index: interpreter met an unsupported construct: %s' % (cname, ex))
+                if len(sizes) == 1:
+                    want = coord[0]
+                elif len(sizes) == 2:
+                    want = coord[1] + sizes[1] * coord[0]
+                else:
+                    want = coord[1] + sizes[1] * (coord[0] + sizes[0] * coord[2])
+                n += 1
+                if got != want and bad is None:
+                    bad = (sizes, coord, got, want)
+        run.ob('MG2.manager-index-is-canonical', 'control_points.%s.find_index (implemented in %s)' % (cname, fi.key), bad is None,
+               '%d index tuples over the sizes %s give v + Sv*(u + Su*w)' % (n, boxes) if bad is None else
+               'sizes %s, position %s: find_index returns %r, the canonical flat index (v fastest, then u, then w) is %r' % bad, 'geomdl/control_points.py in %s' % fi.key)
+
+
+# ====================================================================================== C13: extraction on an abstract surface
+def recorder(kind, made):
+    """an abstract freshly constructed shape that records what is assigned to it"""
+    b = Bag('rec:' + kind, _kind=kind)
+    b._a['set_ctrlpts'] = Py(lambda sk, node, cp, *sz, _b=b, **k: _b._a.__setitem__('ctrlpts', (list(cp), tuple(sz))), 'set_ctrlpts')
+    b._a['__class__'] = Py(lambda sk, node, *a, **k: recorder(kind, made), '__class__')
+    made.append(b)
+    return b
+
+
+def ex2(m, run):
+    """EX2: construct.extract_curves on an abstract surface with index-labelled control points: the 'u' family has one curve per v index made
+    of the points (u, v) for all u, with the u degree and u knot vector; the 'v' family one curve per u index, with the v data; the
+    options extract_u / extract_v switch off exactly their own family"""
+    su, sv, pu, pv = 3, 4, 2, 1
+    kvu, kvv = [Tok('DEF', dep=frozenset([('ku', i)])) for i in range(su + pu + 1)], [Tok('DEF', dep=frozenset([('kv', i)])) for i in range(sv + pv + 1)]
+    for opts in ({}, {'extract_u': False}, {'extract_v': False}):
+        made = []
+        cpts = pts(su * sv, 3, labelled=True)
+        data = dict(rational=False, degree=(pu, pv), knotvector=(kvu, kvv), size=(su, sv), control_points=cpts, dimension=3, pdimension=2, type='spline')
+        surf = Bag(('BSpline', 'Surface'), data=data, _pdim=2, __len__=1, _rational=False)
+        ab = dict(STD_ABSTRACTED)
+        for cls in ('Curve',):
+            for mod in ('BSpline', 'NURBS'):
+                ab[('class', (mod, cls))] = (lambda sk, node, *a, _m=mod, **k: recorder(_m + '.Curve', made))
+        sk = SK(m, ab)
+        key = 'construct.extract_curves :: options %s' % (opts or 'default')
+        why = None
+        try:
+            out = sk.call(m.func('construct.extract_curves'), [surf], dict(opts))
+        except Violation as v:
+            why = '%s %s' % (v.msg, v.where())
+            out = None
+        except Unsupported as ex:
+            raise AnalysisError('%s: interpreter met an unsupported construct: %s' % (key, ex))
+        if why is None:
+            want_u = opts.get('extract_u', True)
+            want_v = opts.get('extract_v', True)
+            fam = {'u': (want_u, sv, su, pu, 'ku', lambda a, b: b + sv * a), 'v': (want_v, su, sv, pv, 'kv', lambda a, b: a + sv * b)}
+            for name, (wanted, ncurves, npts, deg, kvlab, idx) in fam.items():
+                lst = out.get(name) if isinstance(out, dict) else None
+                if lst is None:
+                    why = 'the result has no %r family' % name
+                    break
+                if not wanted:
+                    if lst:
+                        why = 'extract_%s=False still returns %d curves of the %s family (and the option switches off the other family instead)' % (name, len(lst), name)
+                        break
+                    continue
+                if len(lst) != ncurves:
+                    why = 'the %s family has %d curves, expected %d%s' % (name, len(lst), ncurves, ' (switched off by the option of the other family)' if not lst else '')
+                    break
+                for c_i, crv in enumerate(lst):
+                    cp = crv._a.get('ctrlpts', ([], ()))[0]
+                    got = [next(iter(footprint(p))) if footprint(p) and len(footprint(p)) == 1 else None for p in cp]
+                    # curve c_i of family u runs over u at fixed v = c_i; of family v over v at fixed u = c_i
+                    want = [idx(a, c_i) if name == 'u' else idx(a, c_i) for a in range(npts)]
+                    if got != want:
+                        why = 'curve %d of the %s family is made of the flat indices %s, expected %s' % (c_i, name, got, want)
+                        break
+                    if crv._a.get('degree') != deg:
+                        why = 'curve %d of the %s family gets degree %r, the %s degree is %d' % (c_i, name, crv._a.get('degree'), name, deg)
+                        break
+                    kv = crv._a.get('knotvector')
+                    labs = {next(iter(k_.dep))[0] for k_ in kv if isinstance(k_, Tok) and k_.dep} if isinstance(kv, list) else set()
+                    if labs != {kvlab}:
+                        why = 'curve %d of the %s family gets the knot vector of direction %s' % (c_i, name, sorted(labs))
+                        break
+                if why:
+                    break
+        run.ob('EX2.extracted-curve-families', key, why is None, 'both families carry the rows, degree and knot vector of their own direction' if why is None else why,
+               'geomdl/construct.py in construct.extract_curves')
